@@ -27,8 +27,11 @@ def run(ck):
     ck.rule("C05-O4", "destructive file calls reachable from the sinks' entry points are exactly: rotate(): rename(active name -> generated rotated name); compressFile(): open(path+'.gz') and remove(its parameter); removeOldFiles(): remove(first of findRotatedFiles())")
     ck.rule("C05-O5", "rotation code never writes record bytes: device writes reachable from rotateIfNeeded go to compressFile's own output file only")
     ck.rule("C05-O6", "a rotated name is never handed out twice: the next index is 1 + the maximum over every existing plain or .gz entry of that date (else compressFile() truncates an existing archive / rename fails and the history is lost or merged)")
-    from rules.c09 import next_index, daily
+    from rules.c09 import next_index, daily, name_scheme
     next_index(ck, S, "C05-O6")
+    # ... and the scan that finds the existing indices reads exactly the names the writer produces: if the two split the active
+    # file's name differently (svc.err.log), no existing file is ever seen and index 1 is handed out again and again
+    name_scheme(ck, S, "C05-O6")
     ck.rule("C05-O7", "rotation order = name order: with daily rotation every file is dated with the day of the records written to it on every path before the write (a size rotation must not leave the new file dated by the clock), so reading by (date, index) is reading in write order")
     daily(ck, S, RP + "::m_currentLogDate", "C05-O7")
     ck.rule("C05-O8", "compression copies bytes: the rotated file is read and the .gz written in binary mode (a Text-mode read drops every CR)")
